@@ -11,15 +11,20 @@ EXTENDS RouteDiscovery, TraceKit
 
 TNodes == 1..6
 
-VARIABLES l, cf, ms, bad, notes
+VARIABLES l, cf, ms, pk, bad, notes
 \* cf : configuration of the running scenario [alpha, ttl, nodes, lk]
 \* ms : node -> node-local state as last observed (plus its outstanding FindRoute calls)
+\* pk : node -> relay messages whose handler was observed to wait in FindRoute
+\* cf.lk follows the scenario's linkdown / linkup steps; cf.ever collects every link that existed
 
 ToSet(s) == {s[i] : i \in DOMAIN s}
 LinkSet(e) == {{e.links[i][1], e.links[i][2]} : i \in DOMAIN e.links}
 
-Cfg(e) == [alpha |-> e.alpha, ttl |-> e.maxttl, nodes |-> ToSet(e.nodes), lk |-> LinkSet(e)]
-NoCfg  == [alpha |-> 1, ttl |-> 1, nodes |-> {}, lk |-> {}]
+Cfg(e) == [alpha |-> e.alpha, ttl |-> e.maxttl, nodes |-> ToSet(e.nodes), lk |-> LinkSet(e), ever |-> LinkSet(e)]
+NoCfg  == [alpha |-> 1, ttl |-> 1, nodes |-> {}, lk |-> {}, ever |-> {}]
+CfgAfter(c, e) == IF e.op = "linkdown" THEN [c EXCEPT !.lk = @ \ {{e.a, e.b}}]
+                  ELSE IF e.op = "linkup" THEN [c EXCEPT !.lk = @ \cup {{e.a, e.b}}, !.ever = @ \cup {{e.a, e.b}}]
+                  ELSE c
 
 \* ---- observations ---------------------------------------------------------
 ObsGetOf(get, t) == LET J == {j \in DOMAIN get : get[j][1] = t}
@@ -52,7 +57,7 @@ Verdict(c, e) ==
   LET P == PathsAt(e) \cup Returned(e)
   IN    Clause("C28:no_panic", ~e.panicked)
      \o Clause("C28:recorded_path_has_distinct_nodes", \A x \in P : PathDistinct(x[2]))
-     \o Clause("C28:recorded_path_follows_neighbour_links", \A x \in P : PathLinked(c.lk, x[1], x[2]))
+     \o Clause("C28:recorded_path_follows_neighbour_links", \A x \in P : PathLinked(c.ever, x[1], x[2]))
      \o Clause("C28:recorded_path_within_hop_limit", \A x \in P : PathWithinLimit(c.ttl, x[2]))
      \o Clause("C28:recorded_path_excludes_holder", \A x \in P : PathExcludesHolder(x[1], x[2]))
      \o Clause("C28:relay_not_forwarded_to_node_on_its_path", \A m \in SentSet(e) : RelayMsgOK(m))
@@ -77,52 +82,78 @@ Predicted(c, e, S) ==
 
 IsRelayDeliver(e) == e.op = "deliver" /\ e.m.k = "relay"
 
-Drift(c, e, S) ==
-  IF e.op \in {"reset", "end", "miss", "lose", "inject"} \/ e.node = 0 THEN
+Drift(c, e, S, P) ==
+  IF e.op \in {"reset", "end", "miss", "lose", "inject", "linkdown", "linkup"} \/ e.node = 0 THEN
      (IF e.op = "miss" THEN <<"scheduled_message_was_not_in_the_queue">> ELSE <<>>)
   ELSE IF IsRelayDeliver(e) THEN
      LET n == e.node
          nb == {x \in c.nodes : x # n /\ {n, x} \in c.lk}
          ch == RelayChoices(S, n, nb, MsgOf(e.m))
-     IN Clause("relay_next_hop_differs_from_model",
-               \/ (ch = {} /\ SentSet(e) \cap {m \in SentSet(e) : m.k = "relay"} = {})
-               \/ \E nx \in ch : RelayStep(S, n, MsgOf(e.m), nx).out = {m \in SentSet(e) : m.k = "relay"})
+         relays == {m \in SentSet(e) : m.k = "relay"}
+     IN IF ch # {} \/ n = e.m.dest
+        THEN Clause("relay_next_hop_differs_from_model",
+                    /\ ~e.parked
+                    /\ \/ (ch = {} /\ SentSet(e) = {})
+                       \/ \E nx \in ch : RelayStep(S, n, MsgOf(e.m), nx).out = SentSet(e))
+        ELSE \* no stored hop off the path: the handler searches (FindStep) and waits
+             Clause("relay_search_differs_from_model",
+                    /\ relays = {}
+                    /\ FindStep(c, S, n, e.m.dest, ToSet(e.fwd)).out = SentSet(e)
+                    /\ e.parked = (ToSet(e.fwd) # {}))
   ELSE
      LET r == Predicted(c, e, S)
+         n == e.node
+         nb == {x \in c.nodes : x # n /\ {n, x} \in c.lk}
          o == ObsNode(c, e, r.S.finding)
-     IN    Clause("sent_messages_differ_from_model", r.out = SentSet(e))
+         woken == IF e.op = "deliver" /\ e.m.k = "resp" THEN {p \in P[n] : p.dest \in r.done} ELSE {}
+         relays == {m \in SentSet(e) : m.k = "relay"}
+         relaysOK == IF woken = {} THEN relays = {}
+                     ELSE LET p == CHOOSE x \in woken : TRUE
+                              ch == ResumeChoices(r.S, n, nb, p)
+                          IN IF ch = {} THEN relays = {} ELSE \E nx \in ch : RelayStep(r.S, n, p, nx).out = relays
+     IN    Clause("sent_messages_differ_from_model", r.out = SentSet(e) \ relays)
+        \o Clause("resumed_relay_differs_from_model", relaysOK /\ (e.op = "deliver" => e.resumed = (woken # {})))
         \o Clause("table_differs_from_model", r.S.tb = o.tb)
         \o Clause("pending_differs_from_model", r.S.resp = o.resp /\ r.S.reqlog = o.reqlog)
         \o Clause("address_book_differs_from_model", r.S.book = o.book)
-        \o Clause("findroute_returns_differ_from_model", r.done = {e.finds[j].t : j \in DOMAIN e.finds})
+        \o Clause("findroute_returns_differ_from_model", r.done \ {p.dest : p \in woken} = {e.finds[j].t : j \in DOMAIN e.finds})
 
 \* finding after the event: the model's, minus whatever was observed to return
 FindingAfter(c, e, S) ==
-  LET f == IF e.op = "find" /\ e.fwd # <<>> THEN (e.t :> ToSet(e.fwd)) @@ S.finding ELSE S.finding
+  LET f == IF e.op = "find" /\ e.fwd # <<>> THEN (e.t :> ToSet(e.fwd)) @@ S.finding
+           ELSE IF IsRelayDeliver(e) /\ e.parked THEN (e.m.dest :> ToSet(e.fwd)) @@ S.finding
+           ELSE S.finding
       gone == {e.finds[j].t : j \in DOMAIN e.finds}
+              \cup (IF e.op = "deliver" /\ e.resumed THEN {e.m.dest} ELSE {})
   IN [t \in (DOMAIN f) \ gone |-> f[t]]
 
-TInit == l = 1 /\ cf = NoCfg /\ ms = <<>> /\ bad = <<>> /\ notes = <<>>
-         /\ links = {} /\ st = <<>> /\ net = <<>> /\ nsent = 0 /\ nfinds = 0 /\ ninjects = 0 /\ nexp = 0 /\ nloss = 0
+TInit == l = 1 /\ cf = NoCfg /\ ms = <<>> /\ pk = <<>> /\ bad = <<>> /\ notes = <<>>
+         /\ links = {} /\ everlinks = {} /\ st = <<>> /\ parked = <<>> /\ net = <<>> /\ nsent = 0 /\ nfinds = 0 /\ ninjects = 0
+         /\ nexp = 0 /\ nloss = 0 /\ nlink = 0
          /\ last = [op |-> "init"]
 
 TStep == /\ l <= NEvents
          /\ LET e == Trace[l]
-                c == IF e.op = "reset" THEN Cfg(e) ELSE cf
+                c == IF e.op = "reset" THEN Cfg(e) ELSE CfgAfter(cf, e)
                 S == IF e.op # "reset" /\ e.op # "end" /\ e.node # 0 THEN ms[e.node] ELSE <<>>
                 cs == Verdict(c, e)
-                dr == Drift(c, e, S)
+                dr == Drift(c, e, S, pk)
             IN /\ l' = l + 1
                /\ cf' = c
                /\ bad' = IF cs = <<>> THEN bad ELSE Append(bad, BadRec(l, e, cs))
                /\ notes' = IF dr = <<>> \/ Len(notes) >= 20 THEN notes ELSE Append(notes, BadRec(l, e, dr))
+               /\ pk' = IF e.op = "reset" THEN [n \in c.nodes |-> {}]
+                        ELSE IF IsRelayDeliver(e) /\ e.node # 0 /\ e.parked THEN [pk EXCEPT ![e.node] = {MsgOf(e.m)}]
+                        ELSE IF e.op = "deliver" /\ e.node # 0 /\ e.resumed THEN [pk EXCEPT ![e.node] = {}]
+                        ELSE pk
                /\ ms' = IF e.op = "reset"
                         THEN [n \in c.nodes |-> InitNode(c, {x \in c.nodes : x # n /\ {n, x} \in c.lk})]
+                        ELSE IF e.op = "linkup" THEN [ms EXCEPT ![e.a].book = @ \cup {e.b}, ![e.b].book = @ \cup {e.a}]
                         ELSE IF e.op = "end" \/ e.node = 0 THEN ms
                         ELSE [ms EXCEPT ![e.node] = ObsNode(c, e, FindingAfter(c, e, S))]
          /\ UNCHANGED vars
 
-TSpec == TInit /\ [][TStep]_<<vars, l, cf, ms, bad, notes>>
+TSpec == TInit /\ [][TStep]_<<vars, l, cf, ms, pk, bad, notes>>
 
 Report == ReportBad(l, bad, notes)
 =============================================================================
